@@ -590,9 +590,16 @@ class Explorer:
         if isinstance(n, ast.Attribute) and isinstance(n.value, ast.Call) and n.value.keywords and not n.value.args:
             kws = {kw.arg: kw.value for kw in n.value.keywords if kw.arg}
             if n.attr in kws:
-                cname = (dotted(n.value.func) or "").split(".")[-1]
-                cis = self.prog.find_classes(cname) if cname[:1].isupper() else []
-                if cis and all(c.is_dataclass and "__post_init__" not in c.methods and n.attr not in c.methods for c in cis):
+                cname = (dotted(n.value.func) or "").split(".")[-1].lstrip("_")
+                full = (dotted(n.value.func) or "").split(".")[-1]
+                cis = self.prog.find_classes(full) if cname[:1].isupper() else []
+
+                def plain_record(c) -> bool:
+                    # a dataclass without __post_init__, or a typing.NamedTuple: the constructor stores its keywords as fields
+                    is_nt = any((dotted(b) or "").split(".")[-1] == "NamedTuple" for b in c.node.bases)
+                    return (c.is_dataclass and "__post_init__" not in c.methods or is_nt) and n.attr not in c.methods and "__new__" not in c.methods and "__init__" not in c.methods
+
+                if cis and all(plain_record(c) for c in cis):
                     return kws[n.attr]
         return n
 
